@@ -37,7 +37,7 @@ def gen_structured(rng, vocab):
             segs.append(hx_seg("T", t)); src += t
         elif r < 0.7:
             name = rng.choice(["どー", "あ", "メロ", "x1", "ドレ", rng.choice(names) + "ー", rng.choice(names)])
-            value = rng.choice(["c", "d8", "[2 e]", "o4", "", "l8 c d", "{v}"])
+            value = rng.choice(["c", "d8", "[2 e]", "o4", "", "l8 c d", "{v}", "c\nd", "\ne\n\n"])      # a definition may span lines
             if "{" in name or "}" in name: continue
             form = rng.choice(["~{%s}={%s}", "~{%s} = {%s}", "～{%s}={%s}", "~ {%s}{%s}"])
             segs.append(hx_seg("D", name, value)); src += form % (name, value)
